@@ -11,6 +11,15 @@ pub struct HarmonicBond {
 }
 
 impl EnergyFunction for HarmonicBond {
+    #[cfg(optrs_verif)]
+    fn verif_describe(&self) -> crate::verif::TermDesc {
+        crate::verif::TermDesc {
+            kind: "bond",
+            idxs: vec![self.i, self.j],
+            params: vec![self.r0, self.k_ij],
+        }
+    }
+
     fn involves_idxs(&self, idxs: Vec<usize>) -> bool {
         idxs.len() == 2 && HashSet::from([self.i, self.j]) == HashSet::from_iter(idxs)
     }
